@@ -10,6 +10,7 @@ import (
 	"sync"
 
 	"verif/internal/core"
+	"verif/internal/fo"
 	"verif/internal/scratch"
 )
 
@@ -221,6 +222,8 @@ func c16Lex(s string) []string {
 	return out
 }
 
+var c16GeneratedSeeds = 2
+
 type c16Seed struct {
 	name string
 	src  string
@@ -248,6 +251,14 @@ func c16Seeds(env *scratch.Env) []c16Seed {
 		add("fc/"+f, filepath.Join(env.Repo, "fc", f))
 	}
 	add("cmd/build_sample_md.fo", filepath.Join(env.Repo, "cmd", "build_sample_md", "build_sample_md.fo"))
+	// generated programs (every documented construct in one file)
+	for i := 0; i < c16GeneratedSeeds; i++ {
+		func() {
+			defer func() { recover() }()
+			p, _ := fo.Generate(core.NewRand(core.Seed(), fmt.Sprintf("c16seed/%d", i)), fo.ProfileC01, "main")
+			seeds = append(seeds, c16Seed{fmt.Sprintf("generated/%d", i), fo.Print(p, nil)})
+		}()
+	}
 	sort.Slice(seeds, func(i, j int) bool { return seeds[i].name < seeds[j].name })
 	return seeds
 }
@@ -277,6 +288,9 @@ var c16IllTyped = []struct{ name, src string }{
 
 func c16Workload(env *scratch.Env, tier string, rng *core.Rand) []*c16Exec {
 	var out []*c16Exec
+	if tier == "thorough" {
+		c16GeneratedSeeds = 40
+	}
 	seeds := c16Seeds(env)
 	mk := func(class, seedName, content string, extra func(e *c16Exec)) {
 		e := &c16Exec{class: class, files: map[string]string{"x.fo": content}, args: []string{"x.fo"}}
@@ -375,6 +389,25 @@ func c16Workload(env *scratch.Env, tier string, rng *core.Rand) []*c16Exec {
 				nl[li] = nl[li] + " " + ins
 				mk("dangling-inline", fmt.Sprintf("%s:%d+%s", s.name, li, ins), strings.Join(nl, "\n"), nil)
 			}
+		}
+	}
+	// --- multi-file invocations: a valid first file, then a truncated second file that refers to it
+	{
+		first := "package main\n\ntype Pt = {X: int; Y: int}\n\nlet mk (a:int) =\n  {X=a; Y=a + 1}\n"
+		second := "package main\n\nimport frt\n\nlet sum (p:Pt) =\n  p.X + p.Y\n\nlet main () =\n  frt.Printf1 \"%d\\n\" (sum (mk 3))\n"
+		stride := 1
+		if quick {
+			stride = 3
+		}
+		for off := 0; off <= len(second); off += stride {
+			e := &c16Exec{class: "multi-file-truncate", files: map[string]string{"a.fo": first, "b.fo": second[:off]}, args: []string{"a.fo", "b.fo"}}
+			e.id = fmt.Sprintf("multi-file-truncate:%d", off)
+			e.desc = fmt.Sprintf("two files, the second truncated at %d", off)
+			out = append(out, e)
+			e2 := &c16Exec{class: "multi-file-truncate", files: map[string]string{"a.fo": first[:off%len(first)], "b.fo": second}, args: []string{"a.fo", "b.fo"}}
+			e2.id = fmt.Sprintf("multi-file-truncate-first:%d", off)
+			e2.desc = fmt.Sprintf("two files, the first truncated at %d", off%len(first))
+			out = append(out, e2)
 		}
 	}
 	// --- random byte strings
